@@ -10,7 +10,7 @@ sets.SortedList, Connection.watchedResourcesByOrder, route.TranslateRouteMatch, 
 endpointSliceCache vs the Lean models, line by line.
 Exploration (not proof): stream `perm` - the permutation harness on REAL generation: every mesh is built K
 times on a FakeDiscoveryServer with permuted insertion order (partly before, partly after start), generated
-R times from rebuilt PushContexts with the XDS cache cleared, in two separate processes; every resource of
+R times from rebuilt PushContexts (from scratch, every third one incrementally from its predecessor) with the XDS cache cleared, in two separate processes; every resource of
 CDS/EDS/LDS/RDS/ECDS/NDS for three proxies is hashed; the Lean-verified monitor `allEqualB` and Go's own
 comparison both judge every observation line (stream `mon`).
 """
@@ -190,6 +190,8 @@ def judge_perm(ctx, tag, ops_path, source):
     reported = set()
     for case_line, keys in bad.items():
         classes = {}
+        # an order difference is reported only where the content is identical (else it is the same cause twice)
+        keys = [k for k in keys if not (k.endswith(".order") and k[:-6] in keys)]
         for k in keys:
             fp, what = classify(k)
             classes.setdefault(fp, (what, []))[1].append(k)
@@ -265,7 +267,7 @@ def run(ctx):
     for f in sorted(os.listdir(cdir)) if os.path.isdir(cdir) else []:
         if f.startswith("perm.") and f.endswith(".ops"):
             judge_perm(ctx, "corpus-" + f[5:-4], os.path.join(cdir, f), "corpus:" + f)
-    n = ctx.n(100, 1500)
+    n = ctx.n(150, 1500)
     ops = os.path.join(ctx.work, "perm.gen.ops")
     if os.path.exists(ops):
         os.remove(ops)
@@ -296,7 +298,7 @@ def replay(ctx, path):
     if stream in ("perm", "mon"):
         p = os.path.join(ctx.work, "replay.perm.ops")
         with open(p, "w") as f:
-            f.write("\n".join(rep.get("minimised") and [ops[0]] or ops) + "\n")
+            f.write("\n".join(ops) + "\n")
         judge_perm(ctx, "replay", p, "replay")
         return
     p = os.path.join(ctx.work, "replay.ops")
@@ -324,7 +326,7 @@ MANIFEST = {
                    "EXPLORED, not proved: a permutation harness builds each mesh K times with permuted insertion order, regenerates R times from rebuilt "
                    "PushContexts in two processes and hashes every CDS/EDS/LDS/RDS/ECDS/NDS resource of three proxies; a Lean-verified monitor (allEqualB_iff) "
                    "and Go judge every observation."),
-    "level_note": ("PARTIAL: proved = comparator/fold logic + monitor (coverage.obligations); explored = real generation on ~110 (quick) / ~1500 (thorough) meshes "
+    "level_note": ("PARTIAL: proved = comparator/fold logic + monitor (coverage.obligations); explored = real generation on ~160 (quick) / ~1500 (thorough) meshes "
                    "(coverage.streams.perm, counters perm.*) - no difference observed is not a proof. Nine genuine non-determinism defects were found by the harness "
                    "and repaired in /repo (fix: commits, see notes/C17.md; each has a witness mesh in harness/corpus/C17). Known deviation, by design of the code: "
                    "the ORDER of resources in EDS/RDS/ECDS responses follows Go map iteration over the requested name set (fingerprint "
